@@ -68,9 +68,12 @@ namespace pika {
                 }
                 catch (...)
                 {
-                    // reset status to initial, release waiting threads
-                    flag.status_.store(0);
+                    // release waiting threads, then reset status to initial: the event must be
+                    // set before another caller can become the runner and reset it, otherwise
+                    // a late set() leaves the event signalled during the next run and all
+                    // waiting callers spin without yielding
                     flag.event_.set();
+                    flag.status_.store(0);
 
                     throw;
                 }
